@@ -1156,8 +1156,9 @@ class Tr:
             self.gen.used.add(('np-fresh', ast.unparse(e.func)))
             return self.fresh([], KA)
         ow = []     # operands a LAPACK wrapper may overwrite: written in place AND possibly handed back as (part of) the result
-        if nm in ('lstsq', 'solve', 'lu', 'qr', 'rq', 'svd', 'eigh', 'inv', 'solve_triangular'):
-            for k, pos in (('overwrite_a', 0), ('overwrite_b', 1)):
+        if nm in ('lstsq', 'solve', 'lu', 'qr', 'rq', 'svd', 'eigh', 'inv', 'solve_triangular', 'dct', 'dst', 'idct', 'idst',
+                  'fft', 'ifft', 'rfft', 'irfft', 'cholesky', 'eig', 'eigvals', 'eigvalsh', 'det', 'lu_factor', 'pinv'):
+            for k, pos in (('overwrite_a', 0), ('overwrite_b', 1), ('overwrite_x', 0)):
                 if k in kw and not (isinstance(kw[k], ast.Constant) and kw[k].value is False):
                     if pos < len(args) and args[pos]:
                         self.emit(('store!', args[pos], []))
